@@ -1,0 +1,437 @@
+//! Verification hooks. Compiled only with `--cfg multiqueue2_verif`.
+//!
+//! Drop-in shims for the shared-memory primitives the queue uses. Every shim reports the
+//! operation to a `Runtime` registered for the current thread *before* performing it on the
+//! wrapped real primitive (this is a scheduling point for a deterministic scheduler) and
+//! reports the result afterwards. Threads without a registered runtime pass straight
+//! through to the real primitive, so the ordinary test-suite also runs under the guard.
+#![allow(dead_code)]
+
+use std::cell::RefCell;
+use std::ops::{Deref, DerefMut};
+use std::sync::atomic::Ordering;
+use std::sync::Arc;
+
+#[derive(Clone, Copy, Debug, PartialEq, Eq)]
+pub enum Kind {
+    Load,
+    Store,
+    Cas,
+    CasWeak,
+    FetchAdd,
+    FetchSub,
+    FetchOr,
+    FetchAnd,
+    Fence,
+    Lock,
+    TryLock,
+    Unlock,
+    CvWait,
+    CvNotifyAll,
+    Yield,
+    Sleep,
+    Tau,
+    Alloc,
+    Dealloc,
+}
+
+#[derive(Clone, Debug)]
+pub struct Event {
+    pub kind: Kind,
+    /// address of the word / mutex / condvar / block (0 for fences, yields)
+    pub addr: usize,
+    pub ord: Option<Ordering>,
+    pub ord2: Option<Ordering>,
+    /// first operand (stored value, CAS expected, RMW operand, alloc count, condvar's mutex)
+    pub a: usize,
+    /// second operand (CAS new)
+    pub b: usize,
+    /// static label (tau name, type name for alloc/dealloc)
+    pub what: &'static str,
+}
+
+pub trait Runtime: Send + Sync {
+    /// Scheduling point: called before the operation; returns when the thread may perform it.
+    fn before(&self, ev: &Event);
+    /// Result of the operation announced by the last `before` (`ok` = CAS/try_lock success).
+    fn after(&self, result: usize, ok: bool);
+    /// An observation that is not a scheduling point (unlock, alloc, dealloc).
+    fn note(&self, ev: &Event);
+    /// Condvar wait: the caller has (logically) released `mutex`; block until notified and
+    /// until `mutex` may be re-acquired by this thread.
+    fn cv_block(&self, cv: usize, mutex: usize);
+    /// Should `deallocate` keep the block (quarantine) instead of returning it?
+    fn quarantine(&self) -> bool {
+        true
+    }
+}
+
+thread_local! {
+    static RT: RefCell<Option<Arc<dyn Runtime>>> = RefCell::new(None);
+}
+
+pub fn set_runtime(rt: Option<Arc<dyn Runtime>>) {
+    RT.with(|r| *r.borrow_mut() = rt);
+}
+
+#[inline]
+fn rt() -> Option<Arc<dyn Runtime>> {
+    RT.try_with(|r| r.borrow().clone()).unwrap_or(None)
+}
+
+fn ev(kind: Kind, addr: usize, ord: Option<Ordering>, ord2: Option<Ordering>, a: usize, b: usize) -> Event {
+    Event { kind, addr, ord, ord2, a, b, what: "" }
+}
+
+/// An unhooked internal effect (value write / bitwise read); a scheduling point.
+pub fn tau(what: &'static str, addr: usize) {
+    if let Some(r) = rt() {
+        r.before(&Event { kind: Kind::Tau, addr, ord: None, ord2: None, a: 0, b: 0, what });
+        r.after(0, true);
+    }
+}
+
+pub fn alloc_hook<T>(ptr: usize, num: usize) {
+    if let Some(r) = rt() {
+        r.note(&Event {
+            kind: Kind::Alloc,
+            addr: ptr,
+            ord: None,
+            ord2: None,
+            a: num,
+            b: num * std::mem::size_of::<T>(),
+            what: std::any::type_name::<T>(),
+        });
+    }
+}
+
+/// Returns true when the block must be kept (quarantined) by the caller.
+pub fn dealloc_hook<T>(ptr: usize, num: usize) -> bool {
+    if let Some(r) = rt() {
+        r.note(&Event {
+            kind: Kind::Dealloc,
+            addr: ptr,
+            ord: None,
+            ord2: None,
+            a: num,
+            b: num * std::mem::size_of::<T>(),
+            what: std::any::type_name::<T>(),
+        });
+        r.quarantine()
+    } else {
+        false
+    }
+}
+
+pub fn fence(ord: Ordering) {
+    if let Some(r) = rt() {
+        r.before(&ev(Kind::Fence, 0, Some(ord), None, 0, 0));
+        std::sync::atomic::fence(ord);
+        r.after(0, true);
+    } else {
+        std::sync::atomic::fence(ord);
+    }
+}
+
+pub fn yield_now() {
+    if let Some(r) = rt() {
+        r.before(&ev(Kind::Yield, 0, None, None, 0, 0));
+        r.after(0, true);
+    } else {
+        std::thread::yield_now();
+    }
+}
+
+pub fn sleep(d: std::time::Duration) {
+    if let Some(r) = rt() {
+        r.before(&ev(Kind::Sleep, 0, None, None, d.as_millis() as usize, 0));
+        r.after(0, true);
+    } else {
+        std::thread::sleep(d);
+    }
+}
+
+#[derive(Default)]
+pub struct AtomicUsize {
+    inner: std::sync::atomic::AtomicUsize,
+}
+
+impl AtomicUsize {
+    pub const fn new(v: usize) -> AtomicUsize {
+        AtomicUsize { inner: std::sync::atomic::AtomicUsize::new(v) }
+    }
+
+    #[inline]
+    fn addr(&self) -> usize {
+        self as *const AtomicUsize as usize
+    }
+
+    pub fn load(&self, ord: Ordering) -> usize {
+        if let Some(r) = rt() {
+            r.before(&ev(Kind::Load, self.addr(), Some(ord), None, 0, 0));
+            let v = self.inner.load(ord);
+            r.after(v, true);
+            v
+        } else {
+            self.inner.load(ord)
+        }
+    }
+
+    pub fn store(&self, val: usize, ord: Ordering) {
+        if let Some(r) = rt() {
+            r.before(&ev(Kind::Store, self.addr(), Some(ord), None, val, 0));
+            self.inner.store(val, ord);
+            r.after(0, true);
+        } else {
+            self.inner.store(val, ord)
+        }
+    }
+
+    pub fn compare_exchange(&self, cur: usize, new: usize, s: Ordering, f: Ordering) -> Result<usize, usize> {
+        if let Some(r) = rt() {
+            r.before(&ev(Kind::Cas, self.addr(), Some(s), Some(f), cur, new));
+            let res = self.inner.compare_exchange(cur, new, s, f);
+            match res {
+                Ok(v) => r.after(v, true),
+                Err(v) => r.after(v, false),
+            }
+            res
+        } else {
+            self.inner.compare_exchange(cur, new, s, f)
+        }
+    }
+
+    /// Under a runtime the weak form is executed as the strong form (no spurious failure).
+    pub fn compare_exchange_weak(&self, cur: usize, new: usize, s: Ordering, f: Ordering) -> Result<usize, usize> {
+        if let Some(r) = rt() {
+            r.before(&ev(Kind::CasWeak, self.addr(), Some(s), Some(f), cur, new));
+            let res = self.inner.compare_exchange(cur, new, s, f);
+            match res {
+                Ok(v) => r.after(v, true),
+                Err(v) => r.after(v, false),
+            }
+            res
+        } else {
+            self.inner.compare_exchange_weak(cur, new, s, f)
+        }
+    }
+
+    fn rmw(&self, kind: Kind, val: usize, ord: Ordering, f: impl Fn(&std::sync::atomic::AtomicUsize) -> usize) -> usize {
+        if let Some(r) = rt() {
+            r.before(&ev(kind, self.addr(), Some(ord), None, val, 0));
+            let v = f(&self.inner);
+            r.after(v, true);
+            v
+        } else {
+            f(&self.inner)
+        }
+    }
+
+    pub fn fetch_add(&self, val: usize, ord: Ordering) -> usize {
+        self.rmw(Kind::FetchAdd, val, ord, |a| a.fetch_add(val, ord))
+    }
+    pub fn fetch_sub(&self, val: usize, ord: Ordering) -> usize {
+        self.rmw(Kind::FetchSub, val, ord, |a| a.fetch_sub(val, ord))
+    }
+    pub fn fetch_or(&self, val: usize, ord: Ordering) -> usize {
+        self.rmw(Kind::FetchOr, val, ord, |a| a.fetch_or(val, ord))
+    }
+    pub fn fetch_and(&self, val: usize, ord: Ordering) -> usize {
+        self.rmw(Kind::FetchAnd, val, ord, |a| a.fetch_and(val, ord))
+    }
+}
+
+pub struct AtomicPtr<T> {
+    inner: std::sync::atomic::AtomicPtr<T>,
+}
+
+impl<T> AtomicPtr<T> {
+    pub fn new(p: *mut T) -> AtomicPtr<T> {
+        AtomicPtr { inner: std::sync::atomic::AtomicPtr::new(p) }
+    }
+
+    #[inline]
+    fn addr(&self) -> usize {
+        self as *const AtomicPtr<T> as usize
+    }
+
+    pub fn load(&self, ord: Ordering) -> *mut T {
+        if let Some(r) = rt() {
+            r.before(&ev(Kind::Load, self.addr(), Some(ord), None, 0, 0));
+            let v = self.inner.load(ord);
+            r.after(v as usize, true);
+            v
+        } else {
+            self.inner.load(ord)
+        }
+    }
+
+    pub fn compare_exchange(&self, cur: *mut T, new: *mut T, s: Ordering, f: Ordering) -> Result<*mut T, *mut T> {
+        if let Some(r) = rt() {
+            r.before(&ev(Kind::Cas, self.addr(), Some(s), Some(f), cur as usize, new as usize));
+            let res = self.inner.compare_exchange(cur, new, s, f);
+            match res {
+                Ok(v) => r.after(v as usize, true),
+                Err(v) => r.after(v as usize, false),
+            }
+            res
+        } else {
+            self.inner.compare_exchange(cur, new, s, f)
+        }
+    }
+}
+
+/// Stand-in for the `parking_lot` items the crate uses (`Mutex`, `Condvar`).
+pub mod parking_lot {
+    use super::*;
+    extern crate parking_lot as pl;
+
+    #[derive(Default)]
+    pub struct Mutex<T> {
+        inner: pl::Mutex<T>,
+    }
+
+    pub struct MutexGuard<'a, T> {
+        g: Option<pl::MutexGuard<'a, T>>,
+        addr: usize,
+    }
+
+    impl<T> Mutex<T> {
+        pub fn new(v: T) -> Mutex<T> {
+            Mutex { inner: pl::Mutex::new(v) }
+        }
+
+        pub fn lock(&self) -> MutexGuard<'_, T> {
+            let addr = self as *const Mutex<T> as usize;
+            if let Some(r) = rt() {
+                r.before(&ev(Kind::Lock, addr, None, None, 0, 0));
+                let g = self.inner.lock();
+                r.after(0, true);
+                MutexGuard { g: Some(g), addr }
+            } else {
+                MutexGuard { g: Some(self.inner.lock()), addr }
+            }
+        }
+    }
+
+    impl<'a, T> Deref for MutexGuard<'a, T> {
+        type Target = T;
+        fn deref(&self) -> &T {
+            self.g.as_ref().unwrap()
+        }
+    }
+
+    impl<'a, T> DerefMut for MutexGuard<'a, T> {
+        fn deref_mut(&mut self) -> &mut T {
+            self.g.as_mut().unwrap()
+        }
+    }
+
+    impl<'a, T> Drop for MutexGuard<'a, T> {
+        fn drop(&mut self) {
+            self.g.take();
+            if let Some(r) = rt() {
+                r.note(&ev(Kind::Unlock, self.addr, None, None, 0, 0));
+            }
+        }
+    }
+
+    #[derive(Default)]
+    pub struct Condvar {
+        inner: pl::Condvar,
+    }
+
+    impl Condvar {
+        pub fn new() -> Condvar {
+            Condvar { inner: pl::Condvar::new() }
+        }
+
+        pub fn wait<T>(&self, guard: &mut MutexGuard<'_, T>) {
+            let cv = self as *const Condvar as usize;
+            if let Some(r) = rt() {
+                r.before(&ev(Kind::CvWait, cv, None, None, guard.addr, 0));
+                let m = guard.addr;
+                pl::MutexGuard::unlocked(guard.g.as_mut().unwrap(), || {
+                    r.note(&ev(Kind::Unlock, m, None, None, 1, 0));
+                    r.cv_block(cv, m);
+                });
+                r.after(0, true);
+            } else {
+                self.inner.wait(guard.g.as_mut().unwrap());
+            }
+        }
+
+        pub fn notify_all(&self) -> usize {
+            let cv = self as *const Condvar as usize;
+            if let Some(r) = rt() {
+                r.before(&ev(Kind::CvNotifyAll, cv, None, None, 0, 0));
+                r.after(0, true);
+                0
+            } else {
+                self.inner.notify_all()
+            }
+        }
+    }
+}
+
+/// Stand-in for `std::sync::Mutex` (`lock().unwrap()`, `try_lock().map(..)`).
+pub struct Mutex<T> {
+    inner: std::sync::Mutex<T>,
+}
+
+pub struct MutexGuard<'a, T> {
+    g: Option<std::sync::MutexGuard<'a, T>>,
+    addr: usize,
+}
+
+impl<T> Mutex<T> {
+    pub fn new(v: T) -> Mutex<T> {
+        Mutex { inner: std::sync::Mutex::new(v) }
+    }
+
+    pub fn lock(&self) -> Result<MutexGuard<'_, T>, ()> {
+        let addr = self as *const Mutex<T> as usize;
+        if let Some(r) = rt() {
+            r.before(&ev(Kind::Lock, addr, None, None, 0, 0));
+            let g = self.inner.lock().map_err(|_| ());
+            r.after(0, g.is_ok());
+            g.map(|g| MutexGuard { g: Some(g), addr })
+        } else {
+            self.inner.lock().map(|g| MutexGuard { g: Some(g), addr }).map_err(|_| ())
+        }
+    }
+
+    pub fn try_lock(&self) -> Result<MutexGuard<'_, T>, ()> {
+        let addr = self as *const Mutex<T> as usize;
+        if let Some(r) = rt() {
+            r.before(&ev(Kind::TryLock, addr, None, None, 0, 0));
+            let g = self.inner.try_lock().map_err(|_| ());
+            r.after(0, g.is_ok());
+            g.map(|g| MutexGuard { g: Some(g), addr })
+        } else {
+            self.inner.try_lock().map(|g| MutexGuard { g: Some(g), addr }).map_err(|_| ())
+        }
+    }
+}
+
+impl<'a, T> Deref for MutexGuard<'a, T> {
+    type Target = T;
+    fn deref(&self) -> &T {
+        self.g.as_ref().unwrap()
+    }
+}
+
+impl<'a, T> DerefMut for MutexGuard<'a, T> {
+    fn deref_mut(&mut self) -> &mut T {
+        self.g.as_mut().unwrap()
+    }
+}
+
+impl<'a, T> Drop for MutexGuard<'a, T> {
+    fn drop(&mut self) {
+        self.g.take();
+        if let Some(r) = rt() {
+            r.note(&ev(Kind::Unlock, self.addr, None, None, 0, 0));
+        }
+    }
+}
